@@ -312,11 +312,15 @@ func (fc *FuncCtx) exec(st *State, s ast.Stmt) *State {
 		if ct, ok := fc.typeOf(x.Chan).Underlying().(*types.Chan); ok {
 			v = fc.convertImplicit(st, v, ct.Elem())
 		}
-		if fc.contract != nil && fc.contract.Opts["nonblocking"] != "" {
-			if key := fc.globalKey(x.Chan); key != "" {
+		if nb := fc.nonblockingOpt(); nb != "" {
+			key := fc.globalKey(x.Chan)
+			if key == "" && strings.Contains(" "+nb+" ", " * ") {
+				key = types.ExprString(x.Chan)
+			}
+			if key != "" {
 				name := key[strings.LastIndex(key, ".")+1:]
-				for _, want := range strings.Fields(fc.contract.Opts["nonblocking"]) {
-					if want == name {
+				for _, want := range strings.Fields(nb) {
+					if want == name || want == "*" {
 						fc.oblige(st, "chan.nonblocking", name, strconv.FormatBool(fc.inNonBlocking), x, "the send on "+name+" must not block this function: it has to be a case of a select with a default clause")
 					}
 				}
@@ -393,6 +397,7 @@ func (fc *FuncCtx) execAssign(st *State, lhs, rhs []ast.Expr, define bool, n ast
 			for i, l := range lhs {
 				if i < len(rs) {
 					fc.ownAssign(st, l, rs[i])
+					fc.ownAssignLit(st, l, rhs[i])
 				}
 			}
 		}
